@@ -41,6 +41,16 @@ RENAME_IDENT = ["fullName", "ID", "$ref", "_x", "ünï", "UserName2", "x", "им
 # names that char::is_alphanumeric accepts but ECMAScript does not (category No after a letter)
 RENAME_OTHER_NUMBER = ["m²", "co₂", "x½", "a①", "m³_per_s", "größe²"]
 RENAME_BAD = ["full-name", "FULL-NAME", "full name", "a\"b", "a\\b", "", "has.dot", "1abc", "a:b", "x-1", "naïve-key", "@type", "a/b"]
+# numeric-like renames: canonical numbers, leading zeros (legacy octal in strict code), signs, exponents, radix prefixes,
+# separators, fractions, very long digit strings, digits of other scripts. HEAD quotes all of them (not identifier names)
+RENAME_NUMERIC = ["0", "404", "01", "007", "00", "08", "+1", "-1", "1e3", "0x10", "0b1", "0o7", "1_000", "1.5", ".5", "1.",
+                  "123456789012345678901234567890", "٣", "１２", "1n", "0.0", "-0", "NaN", "Infinity"]
+# file and directory names of the scanned sources (they reach file_path / lineNumber of the template contexts):
+# comment terminators and openers, quotes, backticks, template substitutions, backslashes, spaces, newline, non-ASCII
+ODD_PATHS = ["src/plugins*/notify.rs", "src/x/*c/ev.rs", "src/a*/*/b.rs", "src/it's/q\"uote/mod.rs", "src/back`tick/${x}/ev.rs",
+             "src/ünï/データ.rs", "src/sp ace/e v.rs", "src/back\\slash/ev.rs", "src/new\nline/ev.rs", "src/<tag>/&amp;.rs",
+             "src/[br]/{cu}.rs", "src/--x/*/", "src/end*/"]
+ODD_PATHS = [p if p.endswith(".rs") else p + "cmds.rs" for p in ODD_PATHS]
 RENAME_VARIANT_OK = ["not-started", "IN PROGRESS", "done", "ünï-code", "a\\\\b", "with 'single'", "x/y:z", ""]
 RENAME_VARIANT_BAD = ["a\"b", "ends\\", "q\"\"q"]
 MAP_TARGETS = ["string", "number", "boolean"]
@@ -199,7 +209,9 @@ def gen_case(rng, profile, idx=0):
             fserde = []
             r = rng.random()
             if r < 0.2:
-                if "key_other_number" in triggers and rng.random() < 0.7:
+                if rng.random() < 0.2:
+                    fserde.append({"rename": rng.choice(RENAME_NUMERIC)})
+                elif "key_other_number" in triggers and rng.random() < 0.7:
                     fserde.append({"rename": rng.choice(RENAME_OTHER_NUMBER)})
                 else:
                     fserde.append({"rename": rng.choice(RENAME_BAD if ("rename_bad" in triggers and rng.random() < 0.7) else RENAME_IDENT)})
@@ -274,6 +286,9 @@ def gen_case(rng, profile, idx=0):
     # ---- place items in files
     nfiles = rng.randint(1, 3)
     files = ["src/lib.rs", "src/m1.rs", "src/sub/deep/m2.rs"][:nfiles]
+    if rng.random() < 0.3:
+        files = pick_names(rng, ODD_PATHS, nfiles)
+        tags.append("odd_paths")
     placed = {f: [] for f in files}
     for it in items + cmd_items:
         placed[rng.choice(files)].append(it)
